@@ -35,6 +35,10 @@ LEAVES = [
     ("tmplval_list", ("opt", "A"), "j", [("A", [ABSENT, ["{B}"]]), B3]),
     ("tmplval_sect", ("opt", "A"), "j", [("A", [ABSENT, {"K": "{B}"}]), B3]),
     ("tmpl", ("tmpl", "{A}/{:p:}", {"p": ("opt", "B")}), "h", [A3, B3]),
+    # a Template whose single reference points at a list / a string holding further references
+    ("tmpl_ref", ("tmpl", "{A}", {}), "h", [("A", [ABSENT, 1, ["{B}"], "{B}"]), B3]),
+    # values that are equal in Python but different JSON values (1 / True)
+    ("opt_b", ("opt", "A"), "h", [("A", [ABSENT, 1, True])]),
     ("all", ("all",), "j", [A3]),
     ("factory", ("optf", "A", 7), "h", [A3]),
     ("listval", ("opt", "M"), "l", [("M", [ABSENT, [1, 2], [2]])]),
@@ -190,6 +194,9 @@ def _ctx():
         lambda h, i: ("coalesce", [("optdom", _q(i, "g"), None, ("vals", [1])), h]),
         lambda i: [(_q(i, "g"), [ABSENT, 1, 5])],
     )
+    # siblings that read keys overlapping the hole's keys: a member of section S, and the whole section
+    add("pair_SX", ANY, tag, lambda h, i: ("tuple", [("opt", "S.X", ("val", 0)), h]))
+    add("pair_S", ANY, lambda t: t if t in ("i", "ii") else "j", lambda h, i: ("tuple", [("opt", "S", ("val", 0)), h]))
     add("list", ANY, Jl, lambda h, i: ("list", [("val", 0), h]))
     add("tuple", ANY, tag, lambda h, i: ("tuple", [("val", 0), h]))
     add("set", ("h",), J, lambda h, i: ("set", [("val", 0), h]))
@@ -234,6 +241,7 @@ def _ctx():
     add("wo_SX", ANY, same, lambda h, i: ("withopt", h, {"S": {"X": 9}}, True))
     add("wdo_A", ANY, same, lambda h, i: ("withopt", h, {"A": 9}, False))
     add("wdo_B", ANY, same, lambda h, i: ("withopt", h, {"B": 9}, False))
+    add("wdo_A1", ANY, same, lambda h, i: ("withopt", h, {"A": 1}, False))
     add("wdo_SY", ANY, same, lambda h, i: ("withopt", h, {"S": {"Y": 9}}, False))
     add("cached", EAGER, same, lambda h, i: ("cached", h, f"c{i}"))
     add("ds_param", EAGER, tag, lambda h, i: ("ds", f"dp{i}", {"params": [h]}))
@@ -341,6 +349,8 @@ def compose(ctx_names, leaf_name):
 
 
 def final_type(ctx_names, leaf_name):
+    if list(ctx_names) == ["x"]:
+        return "j"  # the hand-listed extras all yield eager JSON-ish values
     typ = LEAF_BY_NAME[leaf_name][2]
     for cn in reversed(ctx_names):
         _, accept, rtype, build, fillers = CTX_BY_NAME[cn]
@@ -350,8 +360,34 @@ def final_type(ctx_names, leaf_name):
     return typ
 
 
+# hand-listed depth-1 terms that the one-hole scheme cannot express: plain python constants (not wrapped in
+# Value) in every position that accepts a MaybeEvaluatable, and one-member collections
+_R = lambda v: ("raw", v)  # noqa
+EXTRAS = [
+    ("x:list1_rawlist", ("list", [_R([1, 2])]), []),
+    ("x:list1_rawtuple", ("list", [_R((1, 2))]), []),
+    ("x:tuple1_rawtuple", ("tuple", [_R((1, 2))]), []),
+    ("x:tuple1_rawlist", ("tuple", [_R([1, 2])]), []),
+    ("x:set1_rawtuple", ("set", [_R((1, 2))]), []),
+    ("x:list1_opt", ("list", [("opt", "M")]), [("M", [ABSENT, [1, 2], [[3]], []])]),
+    ("x:tuple1_opt", ("tuple", [("opt", "M")]), [("M", [ABSENT, [1, 2], [[3]], []])]),
+    ("x:list2_raw", ("list", [_R([1]), ("opt", "A")]), [A3]),
+    ("x:dict_raw", ("dict", [("k", _R([1, 2])), ("j", _R({"a": 1}))]), []),
+    ("x:iter_raw", ("apply", ("iter", [_R([1, 2]), ("opt", "A")]), ("fn", "f_list")), [A3]),
+    ("x:fa_raw", ("fa", "g0", [_R([1, 2]), ("opt", "A")], {"k": _R({"a": [1]})}), [A3]),
+    ("x:coalesce_raw", ("coalesce", [("opt", "A"), _R([1, 2])]), [A3]),
+    ("x:switch_raw", ("switch", ("opt", "A", ("val", 0)), [(1, _R([1, 2])), (2, _R("two"))], _R(None)), [A3]),
+    ("x:case_raw", ("case", ("opt", "A", ("val", 0)), [(("fn", "p_eq:1"), _R([1, 2]))], _R(0)), [A3]),
+    ("x:map_raw", ("apply", ("mapvalues", ("opt", "A"), [("A", _R([1, 2]))]), ("fn", "f_list")), []),
+    ("x:optdefault_raw", ("opt", "A", _R([1, [2]])), [A3]),
+]
+
+
 def catalogue(depth, leaves=None, contexts=None):
     """All (label, term, spec) with exactly ``depth`` nested contexts."""
+    if depth == 1 and leaves is None and contexts is None:
+        for label, term, spec in EXTRAS:
+            yield label, term, list(spec)
     leaves = leaves or [l[0] for l in LEAVES]
     contexts = contexts or [c[0] for c in CONTEXTS]
     for combo in itertools.product(contexts, repeat=depth):
